@@ -495,7 +495,7 @@ class Dict(dict, base.Symbolic, pg_typing.CustomTyping):
     # NOTE: symbolic equality of dicts does not depend on the order of keys,
     # therefore the hash is computed on a set of items.
     return base.sym_hash(
-        (self.__class__,
+        (dict,
          frozenset([(k, base.sym_hash(v)) for k, v in self.sym_items()
                     if v != pg_typing.MISSING_VALUE])))
 
